@@ -783,7 +783,11 @@ func evalClient(d caseDesc) ev.Result {
 			_, _ = respond(n).Write([]byte{0xf5})
 		}
 	}}}
-	tag := fmt.Sprintf("client pos=%d cfg=%s/%s/%s input=%s(%d,%d)", d.Pos, cfg.Key, cfg.Kex, cfg.Cipher, d.In.Kind, d.In.Node, d.In.Arg)
+	// half of the cases with a P-256 / RSA2048 configuration run a device without an HMAC-SHA384 engine
+	if (cfg.Key == "P-256" || cfg.Key == "RSA2048RESTR") && (d.In.Node+int(d.In.Arg&0xffff))%2 == 1 {
+		dev.NoHmac384 = true
+	}
+	tag := fmt.Sprintf("client pos=%d cfg=%s/%s/%s hmac384=%v input=%s(%d,%d)", d.Pos, cfg.Key, cfg.Kex, cfg.Cipher, !dev.NoHmac384, d.In.Kind, d.In.Node, d.In.Arg)
 	hit := false
 	nth69 := 0
 	var delivered int
@@ -1258,6 +1262,23 @@ func TestC10(t *testing.T) {
 		}
 		for _, v := range []*refcbor.Node{refcbor.I(-1), refcbor.U(1), refcbor.U(2), refcbor.U(255), refcbor.U(1 << 62), refcbor.I(-1 << 62)} {
 			targets = append(targets, caseDesc{Side: "server", Pos: 62, Cfg: c, In: input{Kind: "literal", Hex: enc(refcbor.A(v))}})
+		}
+		// service-info lists in which EVERY entry has the empty key (one, two, many), both directions
+		for _, n := range []int{1, 2, 5, 300} {
+			var kvs []*refcbor.Node
+			for i := 0; i < n; i++ {
+				kvs = append(kvs, refcbor.A(refcbor.T(""), refcbor.B([]byte{0xf5})))
+			}
+			for _, more := range []bool{false, true} {
+				targets = append(targets, caseDesc{Side: "server", Pos: 68, Cfg: c, In: input{Kind: "literal", Op: "empty-keys", Hex: enc(refcbor.A(refcbor.Bool(more), refcbor.A(kvs...)))}},
+					caseDesc{Side: "client", Pos: 69, Cfg: c, In: input{Kind: "literal", Op: "empty-keys", Hex: enc(refcbor.A(refcbor.Bool(more), refcbor.Bool(false), refcbor.A(kvs...)))}})
+			}
+		}
+		// devmod module-list chunks whose declared length disagrees wildly with the names carried
+		for _, l := range []*refcbor.Node{refcbor.I(-1), refcbor.I(-1 << 63), refcbor.U(1<<63 - 1), refcbor.U(4194304), refcbor.U(1 << 31)} {
+			for _, names := range [][]*refcbor.Node{{}, {refcbor.T("a")}} {
+				targets = append(targets, caseDesc{Side: "server", Pos: 68, Cfg: c, In: input{Kind: "setkv", Hex: "devmod:modules=" + enc(refcbor.A(append([]*refcbor.Node{refcbor.U(0), l}, names...)...))}})
+			}
 		}
 		for a := int64(0); a < 33; a++ {
 			targets = append(targets, caseDesc{Side: "server", Pos: 64, Cfg: c, In: input{Kind: "binleaf", Node: 0, Arg: a, Resign: true}})
